@@ -4,6 +4,7 @@ from core import norm, L_call, L_variant, arms, assigns_to_return, closure_arg_o
 from mir import op_place
 
 META = {
+    "thorough_extra": ["client-only", "tls"],
     "level": "other",
     "explanation": "Return structure of the happy-eyeballs driver, decided on the mir_built bodies of the async fns (await = poll loop with a Yield): (C10.1) both Eyeball::Ok(outcome) arms "
                    "of process_all return Ok(outcome) with identity provenance, and join_next builds Eyeball::Ok(x) exactly on the Some(Ok(x)) edge of tasks.next(); (C10.2) process_all "
